@@ -102,7 +102,7 @@ mod textselection;
 mod types;
 
 #[cfg(stam_verif)]
-mod verif;
+pub mod verif;
 
 #[cfg(feature = "csv")]
 mod csv;
